@@ -19,6 +19,15 @@ CHECKS = {
     "C06": ("exploration", "Seeded search over multi-device deployments x write episodes (settle, snapshot of every element of every device, one client assigns a non-empty element subset of one writable property through the client API and submits, settle, snapshot) x values of each element's domain (text over XML-representable characters, both switch states, byte strings incl. empty, plain and sexagesimal numbers incl. negative) x 7 fragmentation modes x 5 latency profiles; unaddressed elements must be unchanged except rule-forced switch flips predicted by an independent rule model, addressed ones must hold the submitted value (numbers within half the format's resolution under INDI conventions), and the client's own view must show the driver's values afterwards.",
             "Only rw/wo properties, numbers in the format's own shape, BLOB payloads small enough for the server-side 2048-character threshold (big uploads are C08).",
             "deterministic simulation of isolated write episodes through the real client API, wire, framing, router and driver with before/after truth snapshots"),
+    "C07": ("exploration", "Seeded search over generated deployments x driver-state histories (values, states, vector/group/element enable flips, BLOBs set) with getProperties requests sent by a real client over the fragmented simulated wire, for every (device, name) class in {existing, other, unknown, absent} x {enabled, disabled, unknown, absent}; the definitions each driver hands to the router after the request (router tap) must be exactly those predicted from the driver's public state, each with exactly the enabled elements, current values and the property's metadata; a re-parse monitor serialises, parses back and structurally compares every message any driver emits in the run.",
+            "Requests are judged at quiescence; number texts are compared with the library's own rendering; delProperty replies are allowed.",
+            "deterministic simulation: requests over the simulated wire at random points of histories, router tap vs driver truth, re-parse monitor"),
+    "C09": ("exploration", "Seeded search over switch vectors (3 rules x 1..5 switches x arbitrary, possibly rule-violating, initial configuration) operated by several actors: real clients writing one switch over the simulated wire, a raw peer writing several switches per message (duplicates, contradictory pairs), driver-side value=, bool_value=, set_value(), selected_value=, selected_values=; pre->post rule implications on driver state for every driver-side operation, agreement with an independent rule model for single assignments, the rule on every published setSwitchVector (router tap) relative to the state before the operation, the rule on every client view after every delivered message, and final agreement of every client view with the driver. Distinct (rule, n, pre-state, operation, target) transitions are counted.",
+            "Pre->post implications only; the first of two Ons in one multi-switch OneOfMany write need not stay On; operations interleave at message granularity.",
+            "deterministic simulation with several concurrent writers; rule invariant on driver state, router tap and client views"),
+    "C12": ("fault_enumeration", "A catalogue of 18 hostile-but-well-formed client message classes (unknown device/property/element, vector kind mismatch, values the parser accepts but the element cannot convert, values the parser rejects, wrong/non-numeric/missing BLOB size, bad base64, no children, duplicate children, mixed valid+invalid children, device-kind messages from a client, enableBLOB for unknown device or from an unregistered sender, unregistered tags, odd getProperties) is enumerated round-robin x 5 target vector kinds x transport {real TCP handler, real TTY handler on the simulated thread pool, direct router call} and injected at a seeded position of a seeded session of valid traffic; afterwards: nothing escaped, only validly named elements changed (to the valid value), the sending connection is still registered/open and answers a valid getProperties, a valid write is applied, and a driver-side update reaches both the sender and an observing client.",
+            "One hostile message per run in the quick tier (sequences in thorough); both readings of 'ignored as far as it cannot be applied' pass.",
+            "deterministic simulation with message-level fault injection enumerated from a catalogue at every session position"),
     "C02": ("exploration", "Seeded search over (message sequence, spelling, receive world, threshold, stream partition), including exhaustive 1-, 2- and 3-cut sweeps of short streams, through the real Buffer and the real server/client/TTY read loops on a simulated network and thread pool; delivered messages compared structurally with what was sent, promptness checked after every piece, step watchdog for termination. Sampling, not proof.",
             "Trusts the harness message grammar/spelling writer and the structural comparison; kernel TCP segmentation is modelled as arbitrary cuts (a superset).",
             "deterministic simulation (seeded stream-partition schedules on a virtual-time loop, fault-free) with structural reference comparison"),
